@@ -148,6 +148,7 @@ def make_unit():
         ],
         undecided=[
             'that the parser records an error for each documented-unsupported construct (syn) - bounded stand-in cli_unsupported',
+            'cargo feature sets other than {go, python} (the match on --lang has fewer arms there; the flow after it is the same text)',
             'that an Err from parallel_parse / walker_builder is all that happens on that path (no output code is called before them: visible in the verified text)',
         ],
     )
